@@ -420,6 +420,14 @@ def print_parse_round_trip(ex):
 
     def lay_out(chars):
         m = mem
+        if os.environ.get('VERIF_TIER') == 'thorough':
+            # symbolic placement: text first, the pointer variable on top (reading the pointer back is then syntactic, and the text
+            # reads go through the separation hypothesis)
+            for k, t in enumerate(chars):
+                m = z3.Store(m, sp + k, t)
+            for k in range(8):
+                m = z3.Store(m, pp.off + k, z3.Extract(8 * k + 7, 8 * k, sp))
+            return m
         for k in range(8):                      # the pointer variable holds sp
             m = z3.Store(m, pp.off + k, z3.Extract(8 * k + 7, 8 * k, sp))
         for k, t in enumerate(chars):
